@@ -12,7 +12,7 @@ Results are appended to selftest/automut_results.jsonl (resumable: finished ids 
 Survivors are either equivalent mutants or blind spots; selftest/automut_survivors.md records
 the classification made by hand. --summary prints the table used in DESIGN.md 5.4.
 """
-import json, os, subprocess, sys, tempfile, shutil, random, time, collections
+import json, os, signal, subprocess, sys, tempfile, shutil, random, time, collections
 from concurrent.futures import ThreadPoolExecutor
 
 V = os.path.dirname(os.path.dirname(os.path.abspath(__file__)))
@@ -43,11 +43,22 @@ def props_for(f):
     return []
 
 def sh(cmd, cwd=None, timeout=None, env=ENV):
+    # own process group, killed as a whole on timeout: a check that hangs inside a mutated
+    # library would otherwise leave its monitor process (and that one's children) running
+    p = subprocess.Popen(cmd, cwd=cwd, env=env, stdout=subprocess.PIPE, stderr=subprocess.STDOUT, text=True, errors='replace', start_new_session=True)
     try:
-        p = subprocess.run(cmd, cwd=cwd, env=env, stdout=subprocess.PIPE, stderr=subprocess.STDOUT, timeout=timeout, text=True, errors='replace')
-        return p.returncode, p.stdout
-    except subprocess.TimeoutExpired as e:
-        return 124, (e.stdout or '') if isinstance(e.stdout, str) else ''
+        out, _ = p.communicate(timeout=timeout)
+        return p.returncode, out
+    except subprocess.TimeoutExpired:
+        try:
+            os.killpg(p.pid, signal.SIGKILL)
+        except ProcessLookupError:
+            pass
+        try:
+            out, _ = p.communicate(timeout=30)
+        except Exception:
+            out = ''
+        return 124, out or ''
 
 def run_one(m, automut):
     t0 = time.time()
@@ -66,7 +77,7 @@ def run_one(m, automut):
             rec['status'] = 'suite'; return rec
         rec['status'] = 'survived'; rec['tried'] = []
         for p in props_for(m['file']):
-            rc, out = sh([os.path.join(V, 'check'), p, 'quick'], timeout=1500, env=dict(ENV, VERIF_REPO=S, VERIF_OUT_DIR=os.path.join(S, 'zz_verif_out')))
+            rc, out = sh([os.path.join(V, 'check'), p, 'quick'], timeout=600, env=dict(ENV, VERIF_REPO=S, VERIF_OUT_DIR=os.path.join(S, 'zz_verif_out')))
             rec['tried'].append('%s:%d' % (p, rc))
             if rc == 1:
                 rec['status'] = 'caught'; rec['by'] = p
